@@ -130,7 +130,7 @@ func checkC13(c *Check) {
 		switch x := in.(type) {
 		case ssa.CallInstruction:
 			n := callName(x.Common())
-			if n == "sync/atomic.StoreInt32" || n == "sync/atomic.SwapInt32" || n == "sync/atomic.CompareAndSwapInt32" || n == "sync/atomic.AddInt32" {
+			if isAtomicStore(n) || n == "sync/atomic.SwapInt32" || n == "sync/atomic.CompareAndSwapInt32" || n == "sync/atomic.AddInt32" || n == "(*sync/atomic.Int32).Swap" || n == "(*sync/atomic.Int32).CompareAndSwap" || n == "(*sync/atomic.Int32).Add" {
 				return fieldOf(strip(x.Common().Args[0])) == fStatus
 			}
 		case *ssa.Store:
@@ -187,10 +187,10 @@ func checkC13(c *Check) {
 		pos := p.Pos(u.Instr.Pos())
 		switch u.Kind {
 		case "callarg":
-			switch u.Call {
-			case "sync/atomic.LoadInt32":
+			switch {
+			case isAtomicLoad(u.Call):
 				c.OK(key, pos, "atomic load", 1)
-			case "sync/atomic.StoreInt32":
+			case isAtomicStore(u.Call):
 				ci := u.Instr.(ssa.CallInstruction)
 				okPlace := u.Fn == region
 				if !okPlace {
@@ -232,7 +232,7 @@ func checkC13(c *Check) {
 		ok := false
 		allInstrs(m, func(in ssa.Instruction) {
 			if r, isR := in.(*ssa.Return); isR && len(r.Results) == 1 {
-				ok = vCall("sync/atomic.LoadInt32", func(v ssa.Value) bool { return fieldOf(strip(v)) == fStatus })(r.Results[0])
+				ok = vAtomicLoad(func(v ssa.Value) bool { return fieldOf(strip(v)) == fStatus })(r.Results[0])
 			}
 		})
 		c.Cond(ok, p.FuncKey(m)+":result", p.FuncPos(m), "Status() = atomic load of status", "Status() does not return the recorded status")
@@ -243,7 +243,7 @@ func checkC13(c *Check) {
 		ok := false
 		allInstrs(m, func(in ssa.Instruction) {
 			if r, isR := in.(*ssa.Return); isR && len(r.Results) == 1 {
-				st := vOr(vCall(rwT+".Status", vParam(m, 0)), vCall("sync/atomic.LoadInt32", func(v ssa.Value) bool { return fieldOf(strip(v)) == fStatus }))
+				st := vOr(vCall(rwT+".Status", vParam(m, 0)), vAtomicLoad(func(v ssa.Value) bool { return fieldOf(strip(v)) == fStatus }))
 				m1, pos := cCmp(token.NEQ, st, vConstInt(0))(r.Results[0])
 				ok = m1 && pos
 			}
@@ -425,7 +425,11 @@ func appendsOnly(sl ssa.Value, m VM) bool {
 
 func checkImplicit200(c *Check, m *ssa.Function, unders []ssa.CallInstruction, what string) {
 	p := c.P
-	cut := edgesWhere(m, cBool(vCall(rwT+".Written", vParam(m, 0))), true)
+	// "a status line was sent": Written(), or Status() != 0 (Written's own definition, checked under R6)
+	cut := union(
+		edgesWhere(m, cBool(vCall(rwT+".Written", vParam(m, 0))), true),
+		edgesWhere(m, cCmp(token.NEQ, vCall(rwT+".Status", vParam(m, 0)), vConstInt(0)), true),
+	)
 	implicit := func(in ssa.Instruction) bool {
 		ci, ok := in.(ssa.CallInstruction)
 		if !ok || callName(ci.Common()) != rwT+".WriteHeader" {
@@ -561,4 +565,17 @@ func headCond(p *Prog, recv VM) CondM {
 		}
 		return true, pos
 	}
+}
+
+func isAtomicLoad(n string) bool {
+	return n == "sync/atomic.LoadInt32" || n == "(*sync/atomic.Int32).Load"
+}
+
+func isAtomicStore(n string) bool {
+	return n == "sync/atomic.StoreInt32" || n == "(*sync/atomic.Int32).Store"
+}
+
+// vAtomicLoad matches atomic.LoadInt32(addr) / addr.Load() for an address matched by addr.
+func vAtomicLoad(addr VM) VM {
+	return vOr(vCall("sync/atomic.LoadInt32", addr), vCall("(*sync/atomic.Int32).Load", addr))
 }
